@@ -22,6 +22,9 @@ const MSG_RX_STATE_BITMAP_LEN: u32 = 16;
 pub struct RxCtrState {
     max_ctr: u32,
     ctr_bitmap: u16,
+    /// `false` until the first message is received, for a state that does not yet know
+    /// the peer's counter (see [`RxCtrState::new_unsynced`]).
+    synced: bool,
 }
 
 impl RxCtrState {
@@ -29,6 +32,21 @@ impl RxCtrState {
         Self {
             max_ctr,
             ctr_bitmap: 0xffff,
+            synced: true,
+        }
+    }
+
+    /// Create a state which is not yet synchronized with the peer's counter.
+    ///
+    /// The first message received - whatever its counter - is accepted and becomes `max_ctr`,
+    /// with an empty window, so that messages the peer sent earlier but which arrive later
+    /// are still accepted once (as per the Matter Core spec, "Message Counter Synchronization"
+    /// for unicast sessions).
+    pub const fn new_unsynced() -> Self {
+        Self {
+            max_ctr: 0,
+            ctr_bitmap: 0,
+            synced: false,
         }
     }
 
@@ -51,6 +69,13 @@ impl RxCtrState {
     /// - `true` (group): modular comparison — a counter is forward
     ///   iff `(msg_ctr - max_ctr) mod 2^32` falls in `[1, 2^31 - 1]`, otherwise behind.
     pub fn post_recv(&mut self, msg_ctr: u32, is_encrypted: bool, with_rollover: bool) -> bool {
+        if !self.synced {
+            self.synced = true;
+            self.max_ctr = msg_ctr;
+            self.ctr_bitmap = 0;
+            return true;
+        }
+
         if msg_ctr == self.max_ctr {
             // Duplicate
             return false;
@@ -82,12 +107,14 @@ impl RxCtrState {
         // in either direction. Encrypted only allows in forward direction
         else if is_forward {
             self.max_ctr = msg_ctr;
-            if udiff < MSG_RX_STATE_BITMAP_LEN {
+            if udiff <= MSG_RX_STATE_BITMAP_LEN {
                 // The previous max_ctr is now the actual counter
-                self.ctr_bitmap <<= udiff;
+                self.ctr_bitmap = self.ctr_bitmap.checked_shl(udiff).unwrap_or(0);
                 self.insert(udiff - 1);
             } else {
-                self.ctr_bitmap = 0xffff;
+                // The whole window lies between the old and the new max counter:
+                // none of its counters was received yet
+                self.ctr_bitmap = 0;
             }
             true
         } else if !is_encrypted {
